@@ -259,7 +259,10 @@ func fillAllTransitions(forward *NFA, builder *Builder, reverseEdges map[StateID
 		edges := reverseEdges[fwdID]
 
 		if isStart && hasIncoming {
-			fillStartStateWithIncoming(builder, revID, edges, revStateMap, matchID)
+			// The unanchored prefix (?s:.)*? is not part of the pattern: its any-byte
+			// loop must never consume input in the reverse automaton.
+			isPrefix := fwdID == fwdUnanchored && fwdUnanchored != fwdAnchored
+			fillStartStateWithIncoming(builder, revID, edges, revStateMap, matchID, !isPrefix)
 		} else {
 			fillReverseState(builder, revID, edges, revStateMap)
 		}
@@ -402,22 +405,39 @@ func fillReverseState(builder *Builder, revID StateID, edges []reverseEdge, revS
 
 // fillStartStateWithIncoming handles forward start states that have incoming edges (loops)
 // The proxy state is already an epsilon -> match, but we need to add the loop transitions
-func fillStartStateWithIncoming(builder *Builder, proxyID StateID, edges []reverseEdge, revStateMap map[StateID]StateID, matchID StateID) {
+//
+// consume must be true for the start of the pattern itself: when the pattern begins
+// with a loop (e.g. z*azb), the byte edges leading back into the start state have to
+// consume the same bytes in the reverse NFA. With consume=false every incoming edge
+// is followed as an epsilon (used for the unanchored prefix only).
+func fillStartStateWithIncoming(builder *Builder, proxyID StateID, edges []reverseEdge, revStateMap map[StateID]StateID, matchID StateID, consume bool) {
 	// The proxy is currently epsilon -> match
 	// If we have incoming edges (from loops), we need to create a split:
 	// proxyID: split -> (transitions from incoming edges), match
 
 	// Collect targets from incoming edges
 	var loopTargets []StateID
+	var loopEdges []reverseEdge // same edges, minus those from skipped (unanchored prefix) states
+	hasByteEdge := false
 	for _, edge := range edges {
 		if revTarget, ok := revStateMap[edge.from]; ok {
 			loopTargets = append(loopTargets, revTarget)
+			loopEdges = append(loopEdges, edge)
+			hasByteEdge = hasByteEdge || edge.kind != edgeEpsilon
 		}
 	}
 
 	if len(loopTargets) == 0 {
 		// No actual targets, keep the epsilon -> match
 		return
+	}
+
+	if consume && hasByteEdge {
+		// Build the loop entry like any other reverse state so that byte edges
+		// keep their byte ranges instead of degenerating into epsilons.
+		loopEntry := allocatePlaceholder(builder, loopEdges)
+		fillReverseState(builder, loopEntry, loopEdges, revStateMap)
+		loopTargets = []StateID{loopEntry}
 	}
 
 	// We need to convert the proxy into a split that goes to both:
